@@ -148,6 +148,12 @@ def candidates(tier, rnd):
     c.append(("named2", (), (0, 1), spec(), "attr", False, False, "Debug"))
     c.append(("enum-mixed", (), (2, 1), spec(), "attr", False, False, "Debug"))
     c.append(("named2", ((0, 1),), (0, 1), "{:?}", "attr", False, False, "Debug"))  # ignore + transparent on the same field
+    # tuple variants / tuple structs: ignoring a non-trailing field, a transparent non-first field
+    c.append(("enum-single", ((0, 0),), None, "{:?}", "attr", False, False, "Debug"))
+    c.append(("enum-single", (), (0, 1), "{:8?}", "attr", False, False, "Debug"))
+    c.append(("tuple3", ((0, 0), (0, 1)), None, "{:?}", "attr", False, False, "Debug"))
+    c.append(("tuple3", ((0, 1),), None, "{:x?}", "derive", False, False, "Debug"))
+    c.append(("named3", (), (0, 2), "{:<6?}", "attr", False, False, "Debug"))
     c.append(("tuple1", (), (0, 0), "{:+?}", "derive", False, False, "Debug"))
     c.append(("named2", (), None, "{:?}", "attr", True, False, "Debug"))
     c.append(("tuple1", (), None, "{:?}", "attr", False, True, "Debug"))
